@@ -188,6 +188,9 @@ func runC15(c *fw.Ctx) {
 		{Kind: "Copy", Bucket: "b", Name: "s1", DstBucket: "b", DstName: "c1"},
 		{Kind: "Copy", Bucket: "b", Name: "d1", DstBucket: "b2", DstName: "c2"},
 		{Kind: "Copy", Bucket: "b", Name: "s2", DstBucket: "b", DstName: "s1"},
+		{Kind: "Copy", Bucket: "b", Name: "s1", DstBucket: "b", DstName: "s1"},
+		{Kind: "Copy", Bucket: "b", Name: "s1", DstBucket: "b", DstName: "c1", Meta: gcs.ObjMeta{ContentType: "x/rewritten", Metadata: map[string]string{"rw": "1"}}},
+		{Kind: "Upload", Proto: "media", Bucket: "b", Name: "s1", Data: []byte("1"), Meta: ct},
 		{Kind: "Upload", Proto: "media", Bucket: "b", Name: "s1", Data: []byte("one-new-and-longer"), Meta: ct},
 		{Kind: "Upload", Proto: "media", Bucket: "b", Name: "s2", Data: []byte("2"), Meta: ct},
 		{Kind: "Delete", Bucket: "b", Name: "s1"},
